@@ -38,7 +38,23 @@ class ReconcileMonitor(Monitor):
     def on_exec_after(self, pkg):
         self.applied_open = max(0, self.applied_open - 1)
 
+    def on_step_end(self):
+        pend, self.unknown_only = getattr(self, "unknown_only", None), None
+        if pend is not None:
+            n_markets, mids = pend
+            now = set(self.run.fw.markets.markets)
+            if len(now) != n_markets:
+                self.violate(self.P, "C11.unknown", "update-for-unknown-strategy-created-a-market", markets=sorted(now - mids))
+
     def on_main_event(self, ev):
+        self.unknown_only = None
+        if ev.EVENT_TYPE.name == "CURRENT_ORDERS" and getattr(getattr(ev, "exchange", None), "name", "") != "BETDAQ":
+            hashes = set(a.name_hash for a in self.run.agents)
+            refs = [getattr(o, "customer_order_ref", None) for co in (ev.event or []) for o in getattr(co, "orders", [])]
+            if refs and all(r and r.split("-", 1)[0] not in hashes for r in refs):
+                # a snapshot that only carries orders of strategies this instance does not run: no effect whatever
+                self.unknown_only = (len(self.run.fw.markets.markets), set(self.run.fw.markets.markets))
+                self.res.probes["c11.snapshot_of_unknown_strategies_only"] += 1
         if ev.EVENT_TYPE.name == "CURRENT_ORDERS":
             if self.applied_open > 0:
                 # a snapshot is processed between the exchange applying a request and its response
